@@ -4,12 +4,36 @@ Base/Bytes.vos Base/Bytes.vok Base/Bytes.required_vos: Base/Bytes.v
 Model/Resp.vo Model/Resp.glob Model/Resp.v.beautified Model/Resp.required_vo: Model/Resp.v Base/Bytes.vo
 Model/Resp.vio: Model/Resp.v Base/Bytes.vio
 Model/Resp.vos Model/Resp.vok Model/Resp.required_vos: Model/Resp.v Base/Bytes.vos
+Model/Types.vo Model/Types.glob Model/Types.v.beautified Model/Types.required_vo: Model/Types.v Base/Bytes.vo Model/Resp.vo
+Model/Types.vio: Model/Types.v Base/Bytes.vio Model/Resp.vio
+Model/Types.vos Model/Types.vok Model/Types.required_vos: Model/Types.v Base/Bytes.vos Model/Resp.vos
+Model/Glob.vo Model/Glob.glob Model/Glob.v.beautified Model/Glob.required_vo: Model/Glob.v Base/Bytes.vo
+Model/Glob.vio: Model/Glob.v Base/Bytes.vio
+Model/Glob.vos Model/Glob.vok Model/Glob.required_vos: Model/Glob.v Base/Bytes.vos
+Model/Strings.vo Model/Strings.glob Model/Strings.v.beautified Model/Strings.required_vo: Model/Strings.v Base/Bytes.vo Model/Resp.vo Model/Types.vo Model/Glob.vo
+Model/Strings.vio: Model/Strings.v Base/Bytes.vio Model/Resp.vio Model/Types.vio Model/Glob.vio
+Model/Strings.vos Model/Strings.vok Model/Strings.required_vos: Model/Strings.v Base/Bytes.vos Model/Resp.vos Model/Types.vos Model/Glob.vos
+Model/Lists.vo Model/Lists.glob Model/Lists.v.beautified Model/Lists.required_vo: Model/Lists.v Base/Bytes.vo Model/Resp.vo Model/Types.vo
+Model/Lists.vio: Model/Lists.v Base/Bytes.vio Model/Resp.vio Model/Types.vio
+Model/Lists.vos Model/Lists.vok Model/Lists.required_vos: Model/Lists.v Base/Bytes.vos Model/Resp.vos Model/Types.vos
+Model/ZSets.vo Model/ZSets.glob Model/ZSets.v.beautified Model/ZSets.required_vo: Model/ZSets.v Base/Bytes.vo Model/Resp.vo Model/Types.vo
+Model/ZSets.vio: Model/ZSets.v Base/Bytes.vio Model/Resp.vio Model/Types.vio
+Model/ZSets.vos Model/ZSets.vok Model/ZSets.required_vos: Model/ZSets.v Base/Bytes.vos Model/Resp.vos Model/Types.vos
+Model/Streams.vo Model/Streams.glob Model/Streams.v.beautified Model/Streams.required_vo: Model/Streams.v Base/Bytes.vo Model/Resp.vo Model/Types.vo
+Model/Streams.vio: Model/Streams.v Base/Bytes.vio Model/Resp.vio Model/Types.vio
+Model/Streams.vos Model/Streams.vok Model/Streams.required_vos: Model/Streams.v Base/Bytes.vos Model/Resp.vos Model/Types.vos
+Model/Server.vo Model/Server.glob Model/Server.v.beautified Model/Server.required_vo: Model/Server.v Base/Bytes.vo Model/Resp.vo Model/Types.vo Model/Glob.vo Model/Strings.vo Model/Lists.vo Model/ZSets.vo Model/Streams.vo
+Model/Server.vio: Model/Server.v Base/Bytes.vio Model/Resp.vio Model/Types.vio Model/Glob.vio Model/Strings.vio Model/Lists.vio Model/ZSets.vio Model/Streams.vio
+Model/Server.vos Model/Server.vok Model/Server.required_vos: Model/Server.v Base/Bytes.vos Model/Resp.vos Model/Types.vos Model/Glob.vos Model/Strings.vos Model/Lists.vos Model/ZSets.vos Model/Streams.vos
 Model/RunBase.vo Model/RunBase.glob Model/RunBase.v.beautified Model/RunBase.required_vo: Model/RunBase.v Base/Bytes.vo Model/Resp.vo
 Model/RunBase.vio: Model/RunBase.v Base/Bytes.vio Model/Resp.vio
 Model/RunBase.vos Model/RunBase.vok Model/RunBase.required_vos: Model/RunBase.v Base/Bytes.vos Model/Resp.vos
-Model/Run.vo Model/Run.glob Model/Run.v.beautified Model/Run.required_vo: Model/Run.v Base/Bytes.vo Model/Resp.vo Model/RunBase.vo
-Model/Run.vio: Model/Run.v Base/Bytes.vio Model/Resp.vio Model/RunBase.vio
-Model/Run.vos Model/Run.vok Model/Run.required_vos: Model/Run.v Base/Bytes.vos Model/Resp.vos Model/RunBase.vos
+Model/RunSrv.vo Model/RunSrv.glob Model/RunSrv.v.beautified Model/RunSrv.required_vo: Model/RunSrv.v Base/Bytes.vo Model/Resp.vo Model/Types.vo Model/Server.vo Model/RunBase.vo
+Model/RunSrv.vio: Model/RunSrv.v Base/Bytes.vio Model/Resp.vio Model/Types.vio Model/Server.vio Model/RunBase.vio
+Model/RunSrv.vos Model/RunSrv.vok Model/RunSrv.required_vos: Model/RunSrv.v Base/Bytes.vos Model/Resp.vos Model/Types.vos Model/Server.vos Model/RunBase.vos
+Model/Run.vo Model/Run.glob Model/Run.v.beautified Model/Run.required_vo: Model/Run.v Base/Bytes.vo Model/Resp.vo Model/RunBase.vo Model/RunSrv.vo
+Model/Run.vio: Model/Run.v Base/Bytes.vio Model/Resp.vio Model/RunBase.vio Model/RunSrv.vio
+Model/Run.vos Model/Run.vok Model/Run.required_vos: Model/Run.v Base/Bytes.vos Model/Resp.vos Model/RunBase.vos Model/RunSrv.vos
 Proofs/BytesFacts.vo Proofs/BytesFacts.glob Proofs/BytesFacts.v.beautified Proofs/BytesFacts.required_vo: Proofs/BytesFacts.v Base/Bytes.vo
 Proofs/BytesFacts.vio: Proofs/BytesFacts.v Base/Bytes.vio
 Proofs/BytesFacts.vos Proofs/BytesFacts.vok Proofs/BytesFacts.required_vos: Proofs/BytesFacts.v Base/Bytes.vos
